@@ -1,4 +1,5 @@
 import PlumVerif.Generated.Params
+import PlumVerif.Generated.ScheduleStates
 import PlumVerif.Spec.C18
 import PlumVerif.Proofs.Schedule
 /-
@@ -12,6 +13,16 @@ open PlumVerif PlumVerif.Sched
 def slotTime (i : Nat) : TimeArg := .hm (i / 2) (i % 2 * 30)
 
 /-! ### `set_state` -/
+
+/-- the state lists of the model are those of the source (`get_args(ScheduleState)`, `ON_STATES`,
+`OFF_STATES` of helpers/schedule.py, read by the translator on every run): a state added to or
+dropped from either list in the source breaks this obligation.  The on- and off-states
+partition the accepted states. -/
+theorem states_pinned :
+    validStates = Gen.scheduleStates ∧ onStates = Gen.scheduleOnStates
+      ∧ (∀ s ∈ Gen.scheduleStates, s ∈ Gen.scheduleOnStates ∨ s ∈ Gen.scheduleOffStates)
+      ∧ (∀ s ∈ Gen.scheduleOnStates, s ∈ Gen.scheduleStates ∧ s ∉ Gen.scheduleOffStates)
+      ∧ (∀ s ∈ Gen.scheduleOffStates, s ∈ Gen.scheduleStates) := by decide
 
 /-- **exact slots**: a call succeeds iff the state is one of the four, both times parse, the
 end is after the start and the day has the slots addressed (always so for a 48-slot day, see
